@@ -290,3 +290,52 @@ Proof.
   rewrite app_nth2 by (unfold zlen in *; lia). rewrite app_nth1 by (unfold zlen in *; lia).
   f_equal. unfold zlen in *. lia.
 Qed.
+
+(* ------------------------------------------------------------------ Search over the byte-level provider *)
+
+Lemma zseq_range : forall n from, Forall (fun t => (from <= t < from + Z.of_nat n)%Z) (zseq from n).
+Proof.
+  induction n as [|n IH]; intros from; simpl; constructor; [lia|].
+  specialize (IH (from + 1)%Z). revert IH. apply Forall_impl. intros t Ht. lia.
+Qed.
+
+Lemma map_tok_zseq first : forall dict pre,
+  map (tok first (pre ++ dict)) (zseq (first + Z.of_nat (length pre)) (length dict)) = dict.
+Proof.
+  induction dict as [|x dict IH]; intros pre; simpl; auto. f_equal.
+  - rewrite tok_idx. rewrite app_nth2, Nat.sub_diag by lia. reflexivity.
+  - specialize (IH (pre ++ [x])). rewrite <- app_assoc in IH. simpl in IH.
+    rewrite app_length in IH. simpl in IH.
+    replace (first + Z.of_nat (length pre + 1))%Z with (first + Z.of_nat (length pre) + 1)%Z in IH by lia.
+    exact IH.
+Qed.
+
+(* what the provider hands out for FirstTID..LastTID is the dictionary it serves *)
+Lemma provider_dict_spec w disk sel first dict :
+  cover sel -> first_tid sel = first -> last_tid_p sel = last_tid first dict ->
+  serves w disk sel (tok first dict) -> provider_dict w disk sel = Some dict.
+Proof.
+  intros C Ef El S. unfold provider_dict. rewrite Ef, El. unfold last_tid.
+  replace (Z.to_nat (first + Z.of_nat (length dict) - 1 - first + 1)) with (length dict) by lia.
+  destruct (provider_get_tokens w disk sel (tok first dict) C S (zseq first (length dict)) p_init)
+    as (st' & E & _).
+  { apply pvalid_init. apply C. }
+  { rewrite Ef, El. unfold last_tid. generalize (zseq_range (length dict) first).
+    apply Forall_impl. intros t Ht. lia. }
+  rewrite E. simpl. f_equal. pose proof (map_tok_zseq first dict []) as M. simpl in M.
+  replace (first + 0)%Z with first in M by lia. exact M.
+Qed.
+
+Theorem sealed_bytes_partial parse
+  (PB : forall s k, parse s = Some k -> (- maxkey <= k <= maxkey)%Z) w disk sel first dict q :
+  wfq q -> Sorted.StronglySorted lt_bytes dict ->
+  cover sel -> first_tid sel = first -> last_tid_p sel = last_tid first dict ->
+  serves w disk sel (tok first dict) ->
+  match provider_dict w disk sel with
+  | Some d => search parse true (first_tid sel) d q
+  | None => None
+  end = Some (spec_scan (spec_match parse q) first dict).
+Proof.
+  intros W HS C Ef El S. rewrite (provider_dict_spec w disk sel first dict C Ef El S), Ef.
+  now destruct (narrow_equiv parse PB first dict q W HS) as [_ E].
+Qed.
